@@ -71,8 +71,42 @@ def oracle(rec):
     return None
 
 
+def gen_growing_group(rng):
+    """a quantifier with a free variable whose groups GAIN instances after they were first evaluated -- the first group (row 0)
+    and later ones, by one and by several instances -- with an upward call after every arrival"""
+    kind = rng.choice(["forall", "exists"])
+    two = rng.random() < 0.6
+    preds = [{"id": 0, "arity": 2, "world": "open"}] + ([{"id": 1, "arity": 1, "world": "open"}] if two else [])
+    bops = [[0, ["x", "y"]], [1, ["y"]]] if two else [[0, ["x", "y"]], [0, ["x", "y"]]]
+    body = {"id": 2, "kind": rng.choice(["and", "or"]), "ops": bops, "act": "lukt"}
+    qn = {"id": 3, "kind": kind, "ops": [[2, None]], "qvars": ["y"]}
+    if rng.random() < 0.2:
+        qn["fully_grounded"] = True
+    nc = rng.randint(2, 4)
+    val = lambda: fol.rand_bounds(rng, 0.4, 0.0)
+    facts = []
+    if two:
+        for c in range(nc):
+            facts.append((1, [c], *val()))
+    xs = list(range(nc))
+    rng.shuffle(xs)
+    arrivals = [(x, y) for y in range(nc) for x in xs if rng.random() < 0.8]      # every group gets its y = 0 instance first, ...
+    first = [(0, [x, y], *val()) for x, y in arrivals if y == 0]
+    ops = [("up", 2), ("up", 3)]
+    for x, y in arrivals:
+        if y == 0:
+            continue
+        ops.append(("fact", 0, [x, y], *val()))
+        if rng.random() < 0.7:
+            ops += [("up", 2), ("up", 3)]
+    ops += [("up", 2), ("up", 3), ("up", 3)]
+    return {"kb": {"preds": preds, "nodes": [body, qn], "roots": [3]}, "facts": facts + first, "ops": ops, "n_consts": nc}
+
+
 def gen_program(seed, k):
     rng = random.Random(sub_seed(seed, "c11", k))
+    if k % 4 == 3:
+        return gen_growing_group(rng)
     kb = fol.gen_fol_kb(rng, n_preds=(1, 3), n_conn=(0, 2), max_arity=2, quant=True, worlds=(k % 2 == 0))
     qs = [n["id"] for n in kb["nodes"] if n["kind"] in ("forall", "exists")]
     if not qs:
